@@ -1,6 +1,6 @@
 """Driver for LabelScheduleSource + TaskiqScheduler.on_ready (C16, label-based half).
 
-Scenario: {"cfg": {"tasks": [{"own": true, "entries": [{"k": "cron"|"time"|"both"|"invalid", "t": 1, "a": 3}, ...]}, ...]},
+Scenario: {"cfg": {"tasks": [{"own": true, "entries": [{"k": "cron"|"time"|"both"|"invalid", "t": 1, "a": 3, "i": 0 | explicit id}, ...]}, ...]},
            "ops": [["list"], ["fire", task_idx, pos]]}        # fire the pos-th listed schedule of that task (1-based, mod)
 Events: {"e": "list", "items": [{"task", "k", "t", "a"}]}, {"e": "fire", "task", "k", "t", "a"},
         {"e": "kick", "task", "a", "ok": payload ok}, {"e": "noop"}
@@ -66,6 +66,8 @@ def entry_dict(e: Dict[str, Any]) -> Dict[str, Any]:
             d["time"] = d["time"].replace(tzinfo=_dt.timezone.utc).astimezone(_dt.timezone(_dt.timedelta(hours=2)))
     if e["k"] == "invalid":
         d["crom"] = "* * * * *"
+    if e.get("i", 0):
+        d["schedule_id"] = f"x{e['i']}"      # an explicit id; several entries of one task (of any kind) may carry the same one
     return d
 
 
@@ -168,7 +170,7 @@ def run(scn: Dict[str, Any]) -> List[Dict[str, Any]]:
 
 
 def normalize(cfg: Dict[str, Any]) -> Dict[str, Any]:
-    return {"tasks": [{"own": bool(t.get("own", True)), "entries": [{"k": e["k"], "t": e.get("t", 0), "a": e.get("a", 0)} for e in t["entries"]]}
+    return {"tasks": [{"own": bool(t.get("own", True)), "entries": [{"k": e["k"], "t": e.get("t", 0), "a": e.get("a", 0), "i": e.get("i", 0)} for e in t["entries"]]}
                       for t in cfg["tasks"]]}
 
 
